@@ -252,3 +252,18 @@ def r5_blt_fill(ck, P):
                 ck.ok(RC, '%s: %s (discharged by depth)' % (f.name, site))
             else:
                 ck.violation(RC, f.name, site, 'the FALSE result of %s is ignored: %s; when every implementation that handles the depth is disabled the caller reports success having drawn nothing' % (g.name, reason), c.loc())
+
+
+def r19_4_depths(ck, P, accepted_formats):
+    R = ck.rule('C19-R4', 'every depth of a format the direct-fill shortcut accepts is filled by the portable fill primitive; SIMD fills refuse other depths before writing', floor=4)
+    slots = slot_functions(P)
+    portable = slots['fill'].get('pixman-fast-path.c')
+    if portable is None:
+        raise AnalysisBroken('no fill primitive registered by pixman-fast-path.c')
+    acc = accept_set(P, portable, _bpp_params(portable), _ptr_params(portable))
+    for code in accepted_formats:
+        bpp = tables.fmt_info(code)['bpp']
+        if bpp in acc:
+            ck.ok(R, 'format 0x%x (%d bpp) handled by %s' % (code, bpp, portable.name))
+        else:
+            ck.violation(R, portable.name, 'depth %d' % bpp, 'color_to_pixel accepts format 0x%x but %s refuses %d bpp (accepts %s): the direct fill silently does nothing on the portable chain' % (code, portable.name, bpp, sorted(acc)), portable.unit.name)
